@@ -3,7 +3,7 @@
 From Coq Require Import List Arith Bool ZArith Lia Permutation Sorted.
 From ORatio Require Import smt.SatCoreBase smt.SatCoreSpec smt.SatCore proofs.SatCoreBase_Proofs proofs.SatCoreInv_Proofs
   proofs.SatCorePrim_Proofs proofs.SatCoreStep_Proofs proofs.SatCoreAnalyze_Proofs proofs.SatCoreUb_Proofs
-  proofs.SatCoreRun_Proofs proofs.SatCoreLog_Proofs proofs.SatCoreThm_Proofs.
+  proofs.SatCoreRun_Proofs proofs.SatCoreLog_Proofs proofs.SatCoreThm_Proofs proofs.SatCoreTh_Proofs.
 Import ListNotations.
 
 Section Undo.
@@ -124,10 +124,15 @@ Section Undo.
   Qed.
 
   (* theory states reachable by propagate / check steps inside one level *)
+  (* the theory states reachable by calls of propagate(p) / check() that record no lemma and report no conflict *)
   Inductive th_reach (ts0 : TS) : TS -> Prop :=
   | tr_refl : th_reach ts0 ts0
-  | tr_prop : forall ts a dl p, th_reach ts0 ts -> th_reach ts0 (fst (fst (th_propagate ts a dl p)))
-  | tr_check : forall ts a dl, th_reach ts0 ts -> th_reach ts0 (fst (fst (th_check ts a dl))).
+  | tr_prop : forall ts a dl p, th_reach ts0 ts ->
+      snd (fst (th_propagate ts a dl p)) = [] -> snd (th_propagate ts a dl p) = None ->
+      th_reach ts0 (fst (fst (th_propagate ts a dl p)))
+  | tr_check : forall ts a dl, th_reach ts0 ts ->
+      snd (fst (th_check ts a dl)) = [] -> snd (th_check ts a dl) = None ->
+      th_reach ts0 (fst (fst (th_check ts a dl))).
   Lemma th_reach_trans : forall a b c, th_reach a b -> th_reach b c -> th_reach a c.
   Proof. intros a b c H1 H2. induction H2; auto; constructor; auto. Qed.
 
@@ -137,9 +142,9 @@ Section Undo.
     induction l as [|y u IH]; intros s0; simpl; auto. rewrite IH. destruct (record_log sort s0 2 y) as [R _]. rewrite R. simpl. lia.
   Qed.
   Lemma apply_theory_quiet : forall (s : state) r s' cf, apply_theory sort s r = (s', cf) -> log s' = log s ->
-    s' = set_thst s (fst (fst r)) /\ cf = snd r.
+    s' = set_thst s (fst (fst r)) /\ cf = snd r /\ snd (fst r) = [].
   Proof.
-    intros s [[ts lemmas] cf0] s' cf E Hl. unfold apply_theory in E. inversion E; subst. simpl. split; auto.
+    intros s [[ts lemmas] cf0] s' cf E Hl. unfold apply_theory in E. inversion E; subst. simpl.
     destruct lemmas as [|x t]; auto. exfalso. apply (f_equal (@length _)) in Hl. rewrite fold_record_log_len in Hl.
     simpl in Hl. lia.
   Qed.
@@ -162,8 +167,8 @@ Section Undo.
              rewrite E in B1. simpl in B1. destruct (abr_log sort th_pop (hook s3 3 cnfl) cnfl) as [lits [k1 [C1 _]]].
              rewrite C1 in B1. simpl in B1. rewrite A1, Hl in B1. apply (f_equal (@length _)) in B1.
              rewrite !app_length in B1. simpl in B1. rewrite app_length in B1. lia.
-        * inversion E; subst. destruct (apply_theory_quiet s _ s' None Ea Hl) as [-> _].
-          split. unfold ext_step. simpl. repeat split; auto. exists []; auto. simpl. apply tr_check. constructor.
+        * inversion E; subst. destruct (apply_theory_quiet s _ s' None Ea Hl) as (-> & Q1 & Q2).
+          split. unfold ext_step. simpl. repeat split; auto. exists []; auto. simpl. apply tr_check; auto. constructor.
       + set (s0 := set_prop_q s q) in *.
         assert (I0 : Inv T s0). { apply set_prop_q_inv; auto. rewrite Eq. intros x Hx. simpl; auto. }
         assert (Hpt : In p (trail s)). { apply (i_queue T s (proj1 I)). rewrite Eq. simpl; auto. }
@@ -203,13 +208,13 @@ Section Undo.
              { destruct (propagate_f_log sort th_propagate th_check th_pop f s3) as [e2 [k [B1 _]]]. rewrite E in B1. simpl in B1.
                rewrite A1, Hv, Hl in B1. apply (f_equal (@length _)) in B1. rewrite !app_length in B1. simpl in B1.
                destruct e1; auto. simpl in B1. lia. }
-             destruct (apply_theory_quiet s2 _ s3 None Ea Hl3) as [-> _].
+             destruct (apply_theory_quiet s2 _ s3 None Ea Hl3) as (-> & Q1 & Q2).
              pose proof (th_propagate_okI := Hp s2 p I2 (pstep_in_trail _ _ _ P2 Hpt)).
              assert (I3 : Inv T (set_thst s2 (fst (fst (th_propagate (thst s2) (assigns s2) (decision_level s2) p))))) by (apply set_thst_inv; auto).
              destruct (IH _ s' r I3 E) as [X3 R3]. simpl. rewrite Hl, Hv. reflexivity.
              split. eapply ext_step_trans. exact X02. eapply ext_step_trans; [|exact X3].
              unfold ext_step. simpl. repeat split; auto. exists []; auto.
-             simpl in R3. eapply th_reach_trans; [|exact R3]. rewrite <- Hths2. apply tr_prop. constructor.
+             simpl in R3. eapply th_reach_trans; [|exact R3]. rewrite <- Hths2. apply tr_prop; auto. constructor.
   Qed.
 
   Lemma app_suffix_eq : forall A (a b c d : list A), a ++ b = c ++ d -> length b = length d -> b = d.
@@ -238,16 +243,9 @@ Section Undo.
     unfold pop_one. rewrite Et. simpl. rewrite nth_upd_neq; auto. intros Eq. apply Hn. rewrite Eq. now apply in_map.
   Qed.
 
-  (* the named undo hypotheses of the attached theory, on an observation th_obs of its state
-     (to be discharged by the LRA / DL / OV models: bounds, distances, domains) *)
+  (* an observation th_obs of the theory state (bounds / distances / domains) *)
   Variable O : Type.
   Variable th_obs : TS -> O.
-  Hypothesis th_pop_push : forall ts, th_obs (th_pop (th_push ts)) = th_obs ts.
-  Hypothesis th_pop_propagate : forall ts a dl p, th_obs (th_pop (fst (fst (th_propagate ts a dl p)))) = th_obs (th_pop ts).
-  Hypothesis th_pop_check : forall ts a dl, th_obs (th_pop (fst (fst (th_check ts a dl)))) = th_obs (th_pop ts).
-
-  Lemma th_reach_obs : forall ts0 ts, th_reach ts0 ts -> th_obs (th_pop ts) = th_obs (th_pop ts0).
-  Proof. intros ts0 ts H. induction H; auto. now rewrite th_pop_propagate. now rewrite th_pop_check. Qed.
 
   Record restored (s s2 : state) : Prop := {
     r_assigns : assigns s2 = assigns s;
@@ -263,11 +261,15 @@ Section Undo.
     r_theory : th_obs (thst s2) = th_obs (thst s)
   }.
 
-  Theorem pop_assume_restores : forall (s s' : state) p r, Inv T s -> prop_q s = [] -> fst p < length (assigns s) ->
+  (* trace form: all that is asked of the theory is that a pop gives back the observation of the matching push, whatever
+     lemma-free, conflict-free propagate / check calls happened in between - the shape of the undo theorems of the theory
+     models (difference logics: do_pop (run (do_push s) os) = s; LRA: the bounds after EPush :: es ++ [EPop]; OV: ov_pop) *)
+  Theorem pop_assume_restores_trace : forall (s s' : state) p r, Inv T s -> prop_q s = [] -> fst p < length (assigns s) ->
     assume sort th_propagate th_check th_push th_pop FUEL s p = (s', r) -> r = RTrue -> log s' = log s ->
+    (forall ts, th_reach (th_push (thst s)) ts -> th_obs (th_pop ts) = th_obs (thst s)) ->
     restored s (pop th_pop s').
   Proof.
-    intros s s' p r I Hq Hr E -> Hl.
+    intros s s' p r I Hq Hr E -> Hl Hundo.
     destruct (assume_inv T sort (proj1 Hsort) th_propagate th_check th_push th_pop FUEL (proj1 Hth) (proj2 Hth)
                 s s' p RTrue I Hq Hr E) as (I' & _ & Hn & _ & _ & _ & Hq').
     specialize (Hq' eq_refl).
@@ -313,8 +315,26 @@ Section Undo.
     - (* theory *)
       unfold pop. rewrite A1. simpl.
       destruct (pop_while_inv0 T (length (trail s')) (length (trail s)) s' (proj1 I') Hq') as (_ & _ & _ & _ & D3 & _).
-      rewrite D3. rewrite (th_reach_obs _ _ R2). rewrite B4. simpl. apply th_pop_push.
+      rewrite D3. apply Hundo. rewrite B4 in R2. exact R2.
   Qed.
+
+  (* pointwise form: three laws on single calls imply the trace law *)
+  Section Pointwise.
+    Hypothesis th_pop_push : forall ts, th_obs (th_pop (th_push ts)) = th_obs ts.
+    Hypothesis th_pop_propagate : forall ts a dl p, th_obs (th_pop (fst (fst (th_propagate ts a dl p)))) = th_obs (th_pop ts).
+    Hypothesis th_pop_check : forall ts a dl, th_obs (th_pop (fst (fst (th_check ts a dl)))) = th_obs (th_pop ts).
+
+    Lemma th_reach_obs : forall ts0 ts, th_reach ts0 ts -> th_obs (th_pop ts) = th_obs (th_pop ts0).
+    Proof. intros ts0 ts H. induction H; auto. now rewrite th_pop_propagate. now rewrite th_pop_check. Qed.
+
+    Theorem pop_assume_restores : forall (s s' : state) p r, Inv T s -> prop_q s = [] -> fst p < length (assigns s) ->
+      assume sort th_propagate th_check th_push th_pop FUEL s p = (s', r) -> r = RTrue -> log s' = log s ->
+      restored s (pop th_pop s').
+    Proof.
+      intros s s' p r I Hq Hr E Hrt Hl. apply (pop_assume_restores_trace s s' p r I Hq Hr E Hrt Hl).
+      intros ts R. rewrite (th_reach_obs _ _ R). apply th_pop_push.
+    Qed.
+  End Pointwise.
 End Undo.
 
 (* closed forms over reachable states *)
@@ -338,6 +358,39 @@ Section UndoClosed.
     forall v, nth v (level (run ops (init ts))) 0 =
               level_of_trail (trail (run ops (init ts))) (trail_lim (run ops (init ts))) v.
   Proof. intros. apply (level_by_trail T). now apply reach. Qed.
+
+  Theorem c08_pop_assume_trace : forall (O : Type) (th_obs : TS -> O) (th_inv : TS -> Prop),
+    (forall ts0 ts, th_inv ts0 -> th_reach thp thc (thpush ts0) ts -> th_obs (thpop ts) = th_obs ts0) ->
+    forall ops ts, run_ok ops (init ts) = true -> ub (run ops (init ts)) = false ->
+    th_inv (thst (run ops (init ts))) ->
+    forall p s', pre (run ops (init ts)) (OAssume p) = true ->
+    assume sort thp thc thpush thpop FUEL (run ops (init ts)) p = (s', RTrue) ->
+    log s' = log (run ops (init ts)) ->
+    restored O th_obs (run ops (init ts)) (pop thpop s').
+  Proof.
+    intros O th_obs th_inv Hundo ops ts Hok Hub Hinv p s' Hpre E Hl. simpl in Hpre.
+    apply andb_true_iff in Hpre. destruct Hpre as [Hpre _]. apply andb_true_iff in Hpre. destruct Hpre as [Hq Hr].
+    eapply (pop_assume_restores_trace T sort Hsort thp thc thpush thpop FUEL Hth O th_obs); eauto.
+    now apply reach. now apply qempty_true. now apply Nat.ltb_lt.
+  Qed.
+
+  (* the same with the invariant of the theory carried along the history: it only has to hold initially and to be preserved
+     by the four theory functions *)
+  Theorem c08_pop_assume_inv : forall (O : Type) (th_obs : TS -> O) (th_inv : TS -> Prop),
+    (forall ts a dl p, th_inv ts -> th_inv (fst (fst (thp ts a dl p)))) ->
+    (forall ts a dl, th_inv ts -> th_inv (fst (fst (thc ts a dl)))) ->
+    (forall ts, th_inv ts -> th_inv (thpush ts)) -> (forall ts, th_inv ts -> th_inv (thpop ts)) ->
+    (forall ts0 ts, th_inv ts0 -> th_reach thp thc (thpush ts0) ts -> th_obs (thpop ts) = th_obs ts0) ->
+    forall ops ts, th_inv ts -> run_ok ops (init ts) = true -> ub (run ops (init ts)) = false ->
+    forall p s', pre (run ops (init ts)) (OAssume p) = true ->
+    assume sort thp thc thpush thpop FUEL (run ops (init ts)) p = (s', RTrue) ->
+    log s' = log (run ops (init ts)) ->
+    restored O th_obs (run ops (init ts)) (pop thpop s').
+  Proof.
+    intros O th_obs th_inv H1 H2 H3 H4 Hundo ops ts H0 Hok Hub.
+    apply (c08_pop_assume_trace O th_obs th_inv Hundo ops ts Hok Hub).
+    apply (run_th_inv sort thp thc thpush thpop FUEL th_inv H1 H2 H3 H4 ops ts H0).
+  Qed.
 
   Theorem c08_pop_assume : forall (O : Type) (th_obs : TS -> O),
     (forall ts, th_obs (thpop (thpush ts)) = th_obs ts) ->
